@@ -342,13 +342,22 @@ def classify_failure(chk):
 
 # --------------------------------------------------------------------------- running harnesses
 
-def run_harness(h, scratch, tier, playback=False):
+def run_harness(h, scratch, tier, playback=False, only_props=None, sliced=True):
     slot = Slot()
     try:
         d = scratch.get("kani", h["cap"])
         cmd = ["cargo", "kani", "--target-dir", slot.dir, "--harness", h["full"], "--exact"] + KANI_FLAGS + h["args"]
         if playback:
             cmd += PLAYBACK_FLAGS
+        if only_props:
+            # restrict CBMC to the failed properties: a trace for one property is cheap, traces for
+            # all checks and covers are what makes the playback pass explode
+            if "--cbmc-args" not in cmd:
+                cmd.append("--cbmc-args")
+            for pid in only_props:
+                cmd += ["--property", pid]
+            if sliced:
+                cmd += ["--slice-formula"]
         to = h["timeout"]
         mem = h["mem_gb"]
         if playback:
@@ -440,6 +449,10 @@ def native_replay(replay, scratch, release=False):
             return {"ran": False, "reproduced": False, "why": "replay build/run error", "tail": out[-3000:]}
         ran = int(m.group(2)) + int(m.group(3))
         pm = re.search(r"panicked at (.*?):\n(.*?)\n", out, re.S)
+        if pm and re.search(r"det vals|concrete_vals|Expected \d+ bytes", pm.group(2)):
+            # Kani's playback library ran out of / mis-sized values: the assignment does not fit the
+            # native harness (stub-generated or sliced-away values) - not a reproduction
+            return {"ran": True, "reproduced": False, "why": "assignment misaligned in native playback: " + pm.group(2)[:120], "tail": out[-1500:]}
         return {"ran": ran > 0, "reproduced": int(m.group(3)) > 0, "passed": int(m.group(2)),
                 "panic": (pm.group(2).strip() if pm else None), "panic_at": (pm.group(1).strip() if pm else None),
                 "wall_s": round(wall, 1), "tail": out[-2500:]}
@@ -498,7 +511,7 @@ def cmd_replay(path):
 def select(reg, prop, tier, only):
     # tier=off: harnesses kept in the source for the record (measured out of reach, see DESIGN.md)
     hs = [h for h in reg.values() if prop in h["props"] and (h["tier"] != "off" or (only and h["name"] in only))]
-    if tier == "quick":
+    if tier == "quick" and not only:
         hs = [h for h in hs if h["tier"] == "quick"]
     if only:
         hs = [h for h in hs if h["name"] in only]
@@ -556,7 +569,10 @@ def cmd_check(prop, tier, only, jobs, keep):
                 # sibling (same body, smaller input bound); the native replay decides either way
                 hp = reg[h["pb"]]
                 log("  %s: extracting the assignment from the smaller sibling %s" % (h["name"], hp["name"]))
-            res2 = run_harness(hp, scratch, tier, playback=True)
+            want = None if hp is not h else [c["id"] for c in res["candidates"]][:4]
+            # cheap harnesses: full trace (every non-deterministic value listed, playback aligned);
+            # expensive ones: sliced formula (memory), which needs packed inputs to stay aligned
+            res2 = run_harness(hp, scratch, tier, playback=True, only_props=want, sliced=(res["wall_s"] > 150 and h["stem"] != "l1_enc"))
             res["playback"] = res2.get("playback", [])
             if hp is not h:
                 res["candidates"] = [c for c in res2.get("candidates", [])] or res["candidates"]
